@@ -39,3 +39,23 @@ Proof.
     destruct (full (with_part st p true) a file Hd Hs) as [d [t [H1 [H2 [H3 H4]]]]].
     exists d, t. split; [exact H1|]. split; [exact H2|]. rewrite <- with_part_structural. split; [exact H3|exact H4].
 Qed.
+
+(* ---------- C02_full_all: every file the reference writer denotes (ref_write or ref_write_multi), in the proved domains ---------- *)
+(* [written file a S]: the reference writer produces [file] for the abstract document [a] in some style of its space (single-section
+   or several parts), inside the domain proved so far; [S] = the numbers of the file-structure objects of that style *)
+Definition written (file : bytes) (a : adoc) (S : list N) : Prop :=
+  (exists st, full_dom st a /\ ref_write st a = Some file /\ S = structural_nums st) \/
+  (exists st parts, multi_dom_all st parts a file /\ ref_write_multi st parts a = Some file /\ S = multi_structural st parts).
+
+Theorem full_all file a S :
+  written file a S ->
+  exists d t, load_ext decompress_ref can_ref file = LOk d t /\ d_version d = a_version a /\
+    (forall id, In (fst id) S \/ same_opt (lookup (d_objects d) id) (lookup (content a) id)) /\
+    (forall k, In k [bs "Type"; bs "W"; bs "Index"; bs "Length"; bs "Filter"; bs "DecodeParms"] \/
+               same_opt (dict_get (d_trailer d) k)
+                        (dict_get (a_trailer a ++ [(bs "Size", OInt (Z.of_N (1 + max_num (LoadsTableProofs.nums a ++ S))))]) k)).
+Proof.
+  intros [[st [Hd [Hw ->]]]|[st [parts [Hd [Hw ->]]]]].
+  - destruct (full st a file Hd Hw) as [d [t [H1 [H2 [H3 H4]]]]]. exists d, t. split; [exact H1|]. split; [exact H2|]. split; [exact H3|exact H4].
+  - exact (loads_multi_all st parts a file Hd Hw).
+Qed.
